@@ -1,14 +1,15 @@
 #!/bin/sh
-# usage: tools/try_mutation.sh <patch.diff>   — applies the patch to /repo, runs every rule once, reverts.
-# Never leaves /repo modified.
+# usage: tools/try_mutation.sh <patch.diff> [repo-dir]   — applies the patch to the repo (default /repo), runs every rule once, reverts.
+# Never leaves $R modified.
 set -u
 P="$1"
+R="${2:-/repo}"
 cd "$(dirname "$0")/.."
 export GOFLAGS=-mod=mod GOPROXY=off GOSUMDB=off GOTOOLCHAIN=local; unset GOWORK
-if [ -n "$(git -C /repo status --porcelain)" ]; then echo "try_mutation: /repo is not clean" >&2; exit 2; fi
-if ! git -C /repo apply --check "$P" 2>/dev/null; then echo "try_mutation: patch does not apply: $P"; exit 3; fi
-git -C /repo apply "$P"
-bin/wrglcheck -all -repo /repo -verif "$(pwd)"
+if [ -n "$(git -C $R status --porcelain)" ]; then echo "try_mutation: $R is not clean" >&2; exit 2; fi
+if ! git -C $R apply --check "$P" 2>/dev/null; then echo "try_mutation: patch does not apply: $P"; exit 3; fi
+git -C $R apply "$P"
+bin/wrglcheck -all -repo $R -verif "$(pwd)"
 rc=$?
-git -C /repo checkout -- . && git -C /repo clean -fdq
+git -C $R checkout -- . && git -C $R clean -fdq
 exit $rc
